@@ -78,7 +78,9 @@ Definition classify (transient derived : list field) (f : field) : fclass :=
 (* transient: belongs to the process, not to the run *)
 Definition tr_sampler : list field :=
   ["model"; "proposal"; "checkpoint_callback"; "resumed"; "_previous_likelihood_evaluations";
-   "_previous_likelihood_evaluation_time"].
+   "_previous_likelihood_evaluation_time"; "sampling_start_time"].
+   (* sampling_start_time is a wall-clock instant of the process that wrote the checkpoint: the interval up
+      to the checkpoint is already inside sampling_time, so a resumed process must restart the clock *)
    (* proposal: the *current* proposal of the standard sampler is an alias of _flow_proposal /
       _uninformed_proposal and is re-selected by initialise(); for the importance sampler it is
       carried next to the dict *)
@@ -95,7 +97,7 @@ Definition dr_samples : list field := ["log_q"].        (* recomputed from sampl
 Definition cls_sampler := classify tr_sampler [].
 Definition cls_ins_sampler := classify ["model"; "checkpoint_callback"; "resumed";
                                         "_previous_likelihood_evaluations";
-                                        "_previous_likelihood_evaluation_time"] [].
+                                        "_previous_likelihood_evaluation_time"; "sampling_start_time"] [].
 (* populated: initialise() clears it, NestedSampler.check_resume sets it again from the
    resume_populated note (= populated and pool not empty) *)
 Definition cls_proposal := classify tr_proposal ["populated"].
